@@ -136,6 +136,22 @@ theorem absUpperNew_eq_old (lo hi : Int) (n : Nat) (h : absUpperOld? lo hi = som
   unfold absUpperNew
   omega
 
+/-- `Map::size`: with non-negative input size, OFFSET and LIMIT, the interval `[0, hi]` handed to `Integer::from_interval` is well formed,
+whatever the OFFSET (in particular beyond the input size) -/
+theorem map_size_interval_ordered (inputMax : Int) (offset limit : Option Int) (hm : 0 ≤ inputMax)
+    (ho : ∀ o, offset = some o → 0 ≤ o) (hl : ∀ l, limit = some l → 0 ≤ l) : 0 ≤ mapSizeHi inputMax offset limit := by
+  unfold mapSizeHi
+  cases offset with
+  | none => cases limit with
+    | none => simpa using hm
+    | some l => have := hl l rfl; simp only; omega
+  | some o => cases limit with
+    | none => simp only; omega
+    | some l => have := hl l rfl; simp only; omega
+
+/-- the `saturating_sub` variant is negative as soon as the OFFSET exceeds the input size: the interval assertion fires -/
+theorem map_size_saturating_counterexample : mapSizeHiSaturating 100 (some 200) (some 10) < 0 := by decide
+
 /-- Non-vacuity and the concrete failing shapes: `[-32, 6] / [0, 5]` panics, `[-32, 6] / [1, 5]` does not;
 `i64::MIN` breaks the old absolute bound. -/
 example : divImage? (-32) 6 0 5 = none ∧ divImage? (-32) 6 1 5 ≠ none ∧ absUpperOld? minI 0 = none ∧ absUpperNew minI 0 = 9223372036854775808 := by
